@@ -1,5 +1,5 @@
 """Property -> rule composition.  Each function decides the statically decidable clauses of one property."""
-from .rules import kdefects, numeric, seed, typestate, ownership, clifford, circuit, stabilizer, adjoint, manifold, gellmann, twins, backend
+from .rules import kdefects, numeric, seed, typestate, ownership, clifford, circuit, stabilizer, adjoint, manifold, gellmann, twins, backend, masks
 
 M = 'numqi.'
 DECISION_C05 = ['numqi.entangle.ppt.is_ppt', 'numqi.entangle.ppt.is_generalized_ppt',
@@ -67,6 +67,10 @@ B1_CHANNEL = {'numqi.channel._internal.apply_choi_op#0', 'numqi.channel._interna
               'numqi.utils.get_Renyi_entropy#0', 'numqi.utils.get_fidelity#0', 'numqi.utils.get_purity#0'}
 B1_QEC = {'numqi.qec._varqec.knill_laflamme_loss#0'}
 
+MS1_FUNCS = {'numqi.group._lie._so3_to_angle_hf0': ['x00', 'x02', 'x12', 'x20', 'x21', 'x22'],
+             'numqi.state._internal.get_Werner_eof': ['alpha'],
+             'numqi.state._internal.get_Isotropic_eof': ['alpha']}
+
 MANIFOLD = ['numqi.manifold._internal', 'numqi.manifold._stiefel', 'numqi.manifold._compose', 'numqi.manifold._ABk',
             'numqi.manifold._misc']
 
@@ -99,6 +103,15 @@ def c02(proj, rep, tier):
                'placed in a field the projection keeps, theta reaches the map) are decided')
     rep.assume('Stiefel so-exp/so-cayley at rank==dim parametrise SO(d)/SU(d) (as the option name says), so the bound used '
                'there is min(dim St(d,r), dim SO/SU(d))')
+
+
+def c15(proj, rep, tier):
+    nf, ns = masks.ms1(proj, rep, {k: v for k, v in MS1_FUNCS.items() if '_lie' in k})
+    rep.floor('MS1 elementwise operations / masked stores in the Euler-angle extraction', ns, 30)
+    n = twins.tw(proj, rep, ['numqi.group._lie'])
+    rep.assume('angle recovery at the gimbal points (arccos loses the sign of alpha+gamma at beta=0 and of alpha-gamma at beta=pi), '
+               'the SU(2)->SO(3) homomorphism, Wigner-d and Clebsch-Gordan relations are value-level: not decided. Only the clause '
+               '"a batch is converted element-wise whatever mixture of generic and degenerate rotations it contains" is decided.')
 
 
 def c16(proj, rep, tier):
@@ -196,6 +209,8 @@ def c18(proj, rep, tier):
     rep.floor('K2 true divisions in catalogue modules', n, 100)
     n = numeric.f1(proj, rep, mods)
     rep.floor('F1 log sites in catalogue modules', n, 10)
+    nf, ns = masks.ms1(proj, rep, {k: v for k, v in MS1_FUNCS.items() if 'state._internal' in k})
+    rep.floor('MS1 sites in the closed-form Werner / isotropic EOF', ns, 10)
 
 
 def c20(proj, rep, tier):
@@ -211,7 +226,7 @@ def c20(proj, rep, tier):
 
 
 def dev(proj, rep, tier):
-    print(backend.b1(proj, rep, None))
+    print(masks.ms1(proj, rep, MS1_FUNCS))
 
 
-PROPS = {'C01': c01, 'C02': c02, 'C16': c16, 'C03': c03, 'C04': c04, 'C05': c05, 'C07': c07, 'C19': c19, 'C10': c10, 'C11': c11, 'C18': c18, 'C20': c20, 'DEV': dev}
+PROPS = {'C01': c01, 'C02': c02, 'C15': c15, 'C16': c16, 'C03': c03, 'C04': c04, 'C05': c05, 'C07': c07, 'C19': c19, 'C10': c10, 'C11': c11, 'C18': c18, 'C20': c20, 'DEV': dev}
